@@ -1,6 +1,7 @@
 """C09 — The padding callback is obeyed and existing padding is reused."""
 import containers
 import id3file_tie
+import iff_tie
 
 RULE = ("random edit histories (set tiny/huge/empty/unicode values, save with default/0/n/keep padding, save through a fresh object, "
         "delete by method and by module function, reload) over every sample of every taggable format; after each save/delete an independent "
@@ -13,6 +14,7 @@ RULE = ("random edit histories (set tiny/huge/empty/unicode values, save with de
 def run(ctx):
     containers.run_histories(ctx, {"padding"}, RULE)
     id3file_tie.run(ctx)
+    iff_tie.run(ctx)
 
 
 def search(ctx):
